@@ -6,6 +6,9 @@ EXTENDS CruxCore, Json, IOUtils
 
 Apps == JsonDeserialize(IOEnv.APPS)      \* JSON array of [progs, follow]
 MaxAct == atoi(IOEnv.MAXACT)
+\* "core": Core::process_event / resolve (events applied inside the call);  "tester": AppTester (events handed
+\* back by update / resolve, fed back by the test -- any of them, in any order, or never)
+Tester == "HOSTMODE" \in DOMAIN IOEnv /\ IOEnv.HOSTMODE = "tester"
 
 VARIABLES aidx, hist, applied
 mvars == <<aidx, hist, applied>>
@@ -61,12 +64,28 @@ MAbort ==
 MInternal == CoreInternal /\ UNCHANGED mvars
 
 MApply ==
+  /\ ~Tester
   /\ \E i \in cmds[CORE].out : ApplyEvent(i) /\ applied' = applied \cup {i.o}
   /\ UNCHANGED <<aidx, hist>>
 
-MReturn == CoreReturn /\ UNCHANGED <<registry, aidx, hist, applied>>
+MReturn == ~Tester /\ CoreReturn /\ UNCHANGED <<registry, aidx, hist, applied>>
 
-MNext == Pick \/ MEvent \/ MResolve \/ MDrop \/ MAbort \/ MInternal \/ MApply \/ MReturn
+\* AppTester: the call returns effects and events; in this mode `applied` holds the events handed back so far
+\* (as the records the test gets); the ones the test has not fed back yet are those the log does not show
+MTesterReturn ==
+  /\ Tester /\ TesterReturn
+  /\ applied' = applied \cup {LogEntry(i) : i \in {j \in cmds[CORE].out : j.kind = "ev"}}
+  /\ UNCHANGED <<registry, aidx, hist>>
+
+Fed == {modelLog[k] : k \in {j \in DOMAIN modelLog : modelLog[j].kind = "ev"}}
+MFeed ==
+  /\ Tester /\ Idle
+  /\ \E e \in applied \ Fed :
+       /\ ProcessEvent(e)
+       /\ hist' = Append(hist, [a |-> "feed", o |-> e.o])
+  /\ UNCHANGED <<aidx, applied>>
+
+MNext == Pick \/ MEvent \/ MResolve \/ MDrop \/ MAbort \/ MInternal \/ MApply \/ MReturn \/ MTesterReturn \/ MFeed
 MSpec == MInit /\ [][MNext]_vars
 
 ---------------------------------------------------------------------------
@@ -76,6 +95,7 @@ AppliedOnce ==
      (i # j /\ modelLog[i].kind = "ev" /\ modelLog[j].kind = "ev") => modelLog[i].o # modelLog[j].o
 \* C03: events of one task are applied in the order the task emitted them
 PerTaskOrder ==
+  Tester \/       \* (under AppTester the order of feeding events back is the test's own choice)
   \A i, j \in DOMAIN modelLog :
      (i < j /\ modelLog[i].kind = "ev" /\ modelLog[j].kind = "ev"
         /\ modelLog[i].o[1] = modelLog[j].o[1] /\ modelLog[i].o[2] = modelLog[j].o[2])
@@ -91,6 +111,9 @@ ExecTasksReleased ==
   \A t \in LiveIn(St, CORE) : tasks[t].hosting # NONE => cmds[tasks[t].hosting].alive
 ReadyClosedCore == \A t \in ready : tasks[t].st = "live" => \A h \in HostChain(St, t) : h \in ready \/ h = run
 
-Terminal == aidx # 0 /\ phase = "idle" /\ (Len(hist) >= MaxAct \/ ~ENABLED (MEvent \/ MResolve \/ MDrop \/ MAbort))
+\* AppTester: an event is handed back to the test exactly once (never again by a later call)
+HandedBackOnce == Tester => \A i \in cmds[CORE].out : i.kind = "ev" => LogEntry(i) \notin applied
+
+Terminal == aidx # 0 /\ phase = "idle" /\ (Len(hist) >= MaxAct \/ ~ENABLED (MEvent \/ MResolve \/ MDrop \/ MAbort \/ MFeed))
 EmitSched == Terminal => PrintT(<<"SCHED", ToJson([p |-> aidx - 1, steps |-> hist])>>)
 =============================================================================
